@@ -235,6 +235,40 @@ pub fn build(tier: Tier) -> Check<'static> {
             }
         }));
     }
+    {
+        // exhaustive small comment shapes as the only separator between tokens
+        use crate::core::space::Space;
+        let blk = Space::of(vec!["*", "/", "a", " ", "\n"]).seq_range(0, tier.pick(4, 5)).map(|v| v.concat());
+        let line = Space::of(vec!["/", "*", "a", " ", "\\", "`"]).seq_range(0, tier.pick(3, 4)).map(|v| v.concat());
+        let nb = blk.len();
+        let bases: Vec<&'static str> = vec!["module a; wire w; endmodule\n", "module b; assign x = y / z * 2; endmodule\n", "module c; always @(posedge k) begin q <= d; end endmodule\n"];
+        let nbase = bases.len() as u64;
+        let n = (nb + line.len()) * nbase;
+        c.parts.push(Part::new("comment-shapes", n, "3 small programs with every plain gap replaced by every block comment /*s*/ with s over {*,/,a,blank,newline}^<=4 (not containing */) and every line comment //s over {/,*,a,blank,\\,`}^<=3", move |i, acc| {
+            let base = bases[(i % nbase) as usize];
+            let k = i / nbase;
+            let form = if k < nb {
+                let body = blk.get(k);
+                if body.contains("*/") || body.ends_with('/') && false {
+                    acc.class("not-a-single-comment");
+                    return;
+                }
+                // "/*" + body + "*/" must close exactly at the end: body must not end the comment early
+                let whole = format!("/*{}*/", body);
+                if whole[2..].find("*/") != Some(whole.len() - 4) {
+                    acc.class("not-a-single-comment");
+                    return;
+                }
+                whole
+            } else {
+                format!("//{}\n", line.get(k - nb))
+            };
+            let Some(b) = base_of(base, false) else { return };
+            let m = b.lay.render(&b.text, |kk, g| if g.plain && g.end > g.start { Some(form_for(&b.lay, &b.text, kk, &form, false)) } else { None });
+            acc.distinct(fnv(m.as_bytes()));
+            judge(acc, &b, &m, false, &form, "comment shape");
+        }));
+    }
     if tier == Tier::Thorough {
         let s = seeds.clone();
         let mut table: Vec<(usize, usize)> = vec![];
